@@ -380,6 +380,9 @@ def run_sync(res, delays, kind, guard1, nested, script, tmpl, idle, wit):
                     it.stop()
                     if stopped is None:
                         stopped = time.monotonic() - t0
+            wkey = "m.p.w" if nested else "m.w"
+            log.add("census", observe.live_timers(it).get(wkey, 0),
+                    it.status == "running" and any(x.endswith(".w") for x in config_of(it)))
         horizon = (max([o[0] for o in script] + [0]) + 25 * max(delays) + 350) / 1e3
         while time.monotonic() - t0 < horizon:
             time.sleep(0.01)
